@@ -619,3 +619,4 @@ benign('C03', 'growth test written with max()', NL, "if neighbors[uindex, 0] > m
 benign('C03', 'coordination counts incremented in the other order', NL, "                            neighbors[uindex, 0] += 1\n                            neighbors[vindex, 0] += 1", "                            neighbors[vindex, 0] += 1\n                            neighbors[uindex, 0] += 1")
 benign('C03', 'neighbour growth copies only the occupied part of each row', NL, "                                    for k in range(maxneighbors + 1):\n                                        newneighbors[j, k] = neighbors[j, k]", "                                    for k in range(min(neighbors[j, 0], maxneighbors) + 1):\n                                        newneighbors[j, k] = neighbors[j, k]")
 mutant('C03', 'second row insertion point never searched', NL, "                                if neighbors[vindex, j] > uindex:\n                                    vj = j\n                                    break", "                                if neighbors[vindex, j] > uindex:\n                                    vj = j", 'INSERTION')
+mutant('C19', 'regress: dtype of the latest run forced on merged columns', LOG, "                    converted = np.asarray(merged_df[key], dtype=dtypes[key])\n                except ValueError:\n                    pass\n                else:\n                    # Only keep the conversion if it leaves every value as it was\n                    if np.array_equal(converted, merged_df[key]):\n                        merged_df[key] = converted", "                    merged_df[key] = np.asarray(merged_df[key], dtype=dtypes[key])\n                except ValueError:\n                    pass", 'FLATTEN')
